@@ -10,6 +10,8 @@
 //!            (20 mode)            protect_text(mode)   0 checksum, 1 text, 2 both, 3 auto
 //!            (21 tok len)         add a stand-off resource: id r<tok>, text in file r<tok>.txt
 //!            (22 tok)             add a stand-off dataset: id s<tok>, file s<tok>.annotationset.stam.json
+//!            (24 tok kind hi lo)  insert_data into dataset s<tok>, key knum: kind 0 = Float with the bits hi:lo,
+//!                                 kind 1 = Int with the two's complement value hi:lo
 //!            (23 tok secs q ns)   insert_data into dataset s<tok>, key kdt, a Datetime value (unix seconds,
 //!                                 offset q quarter hours, nanoseconds)
 //! opts     = (milestone_interval use_include)
@@ -382,7 +384,10 @@ fn view_value(v: &DataValue) -> Sx {
         DataValue::Null => l(vec![a(0)]),
         DataValue::String(s) => l(vec![a(1), bytes_sx(s)]),
         DataValue::Bool(x) => l(vec![a(2), b(*x)]),
-        DataValue::Int(i) => l(vec![a(3), a(*i as i64)]),
+        DataValue::Int(i) => {
+            let m = (*i as i128).unsigned_abs();
+            l(vec![a(3), b(*i < 0), a((m >> 32) as i64), a((m & 0xffff_ffff) as i64)])
+        }
         DataValue::Float(f) => {
             let bits = f.to_bits();
             l(vec![a(4), a((bits >> 32) as i64), a((bits & 0xffff_ffff) as i64)])
@@ -657,6 +662,17 @@ fn apply(store: &mut AnnotationStore, dir: &str, op: &Sx) -> Sx {
             let off = FixedOffset::east_opt((op.nth(3).int() as i32) * 900).unwrap_or(FixedOffset::east_opt(0).unwrap());
             let dt = DateTime::<Utc>::from_timestamp(secs, (op.nth(4).int() as u32) % 1_000_000_000).unwrap_or_default().with_timezone(&off);
             let bld = AnnotationDataBuilder::new().with_dataset(storegen::sid(op.nth(1).int()).into()).with_key("kdt".into()).with_value(DataValue::Datetime(dt));
+            match guard(|| store.insert_data(bld)) {
+                None => panic_sx(),
+                Some(Err(_)) => err_sx(),
+                Some(Ok(h)) => l(vec![a(1), a(h.1.as_usize() as i64)]),
+            }
+        }
+        24 => {
+            // numeric extremes: a Float given by its bits (NaN, infinities, -0.0, subnormals) or an Int
+            let bits = ((op.nth(3).int() as u64) << 32) | (op.nth(4).int() as u64 & 0xffff_ffff);
+            let v = if op.nth(2).int() == 0 { DataValue::Float(f64::from_bits(bits)) } else { DataValue::Int(bits as i64 as isize) };
+            let bld = AnnotationDataBuilder::new().with_dataset(storegen::sid(op.nth(1).int()).into()).with_key("knum".into()).with_value(v);
             match guard(|| store.insert_data(bld)) {
                 None => panic_sx(),
                 Some(Err(_)) => err_sx(),
@@ -1003,6 +1019,26 @@ fn history(rng: &mut Rng, max_ops: usize, removals: usize) -> Vec<Sx> {
         let ns = *rng.pick(&[0i64, 0, 500_000_000, 123_456_789, 1000]);
         ops.insert(at, l(vec![a(23), a(rng.range(0, 3)), a(secs), a(rng.range(-48, 56)), a(ns)]));
     }
+    if rng.chance(1, 5) {
+        let at = rng.below(ops.len() + 1);
+        let (hi, lo) = *rng.pick(&[
+            (0x7ff8_0000i64, 0i64),      // NaN
+            (0x7ff0_0000, 0),            // +inf
+            (0xfff0_0000, 0),            // -inf
+            (0x8000_0000, 0),            // -0.0 / isize::MIN
+            (0, 1),                      // smallest subnormal / 1
+            (0x7fff_ffff, 0xffff_ffff),  // a NaN payload / isize::MAX
+            (0xffff_ffff, 0xffff_ffff),  // a NaN / -1
+            (0x3ff0_0000, 0),            // 1.0
+            (0, 24), (0, 255), (0, 256), (0, 65535), (0, 65536), (1, 0), // boundaries of the head widths
+            (0xffff_ffff, 0xffff_ffe8), (0xffff_ffff, 0xffff_ff00),
+        ]);
+        ops.insert(at, l(vec![a(24), a(rng.range(0, 3)), a(rng.below(2) as i64), a(hi), a(lo)]));
+    }
+    if rng.chance(1, 12) {
+        // a text longer than 255 bytes (3-byte string head), many text selections
+        ops.insert(0, l(vec![a(0), a(rng.range(0, 5)), a(rng.range(90, 300))]));
+    }
     ops
 }
 
@@ -1074,14 +1110,14 @@ pub fn generate(out: &mut Out, tier: &str, seed: u64) {
     ] {
         emit(out, crate::sx::parse(req).unwrap(), "fixed");
     }
-    let n_add = if thorough { 4000 } else { 500 };
-    let n_rem = if thorough { 8000 } else { 900 };
+    let n_add = if thorough { 10000 } else { 500 };
+    let n_rem = if thorough { 20000 } else { 900 };
     for _ in 0..n_add {
         let h = history(&mut rng, 14, 0);
         let o = opts(&mut rng);
         emit(out, l(vec![l(h), o]), "additions_only");
     }
-    for _ in 0..(if thorough { 1000 } else { 150 }) {
+    for _ in 0..(if thorough { 3000 } else { 150 }) {
         let h = history_chain(&mut rng);
         let o = opts(&mut rng);
         emit(out, l(vec![l(h), o]), "annotation_chains");
